@@ -1,0 +1,26 @@
+//go:build verif
+
+// Entry points for the deterministic-simulation harness (/verif).  This file
+// only exists with the "verif" build tag.
+
+package ipamplugin
+
+import (
+	"github.com/containernetworking/cni/pkg/skel"
+
+	"github.com/projectcalico/calico/cni-plugin/internal/pkg/utils"
+	"github.com/projectcalico/calico/cni-plugin/pkg/types"
+	client "github.com/projectcalico/calico/libcalico-go/lib/clientv3"
+)
+
+// CmdAddForSim runs the plugin's real CNI ADD handler.
+func CmdAddForSim(args *skel.CmdArgs) error { return cmdAdd(args) }
+
+// CmdDelForSim runs the plugin's real CNI DEL handler.
+func CmdDelForSim(args *skel.CmdArgs) error { return cmdDel(args) }
+
+// SetClientOverrideForSim makes utils.CreateClient (an internal package the
+// harness cannot import) hand out the client returned by f.
+func SetClientOverrideForSim(f func(conf types.NetConf) client.Interface) {
+	utils.SetClientOverrideForSim(f)
+}
